@@ -727,7 +727,7 @@ func (vm *VM) startGoroutine() bool {
 	case OpCallIndirect:
 		f := vm.general(call.A).Interface().(*callable)
 		if f.fn == nil {
-			if f.native.value.IsNil() {
+			if f.isNil() {
 				panic(errors.New("fatal error: go of nil func value"))
 			}
 			return true
@@ -998,6 +998,18 @@ type callable struct {
 
 var callablePtrType = reflect.TypeOf((*callable)(nil))
 
+// callableMu protects the fields native and value of the callables, that are
+// set lazily: a function value can be shared by several goroutines.
+var callableMu sync.RWMutex
+
+// snapshot returns a copy of c.
+func (c *callable) snapshot() callable {
+	callableMu.RLock()
+	cl := *c
+	callableMu.RUnlock()
+	return cl
+}
+
 // isNil reports whether c represents the nil function value.
 func (c *callable) isNil() bool {
 	if c == nil {
@@ -1006,6 +1018,8 @@ func (c *callable) isNil() bool {
 	if c.fn != nil {
 		return false
 	}
+	callableMu.RLock()
+	defer callableMu.RUnlock()
 	if c.native != nil {
 		return c.native.value.IsNil()
 	}
@@ -1017,16 +1031,31 @@ func (c *callable) isNil() bool {
 
 // Native returns the native function of a callable.
 func (c *callable) Native() *NativeFunction {
-	if c.native != nil {
-		return c.native
+	callableMu.RLock()
+	native := c.native
+	callableMu.RUnlock()
+	if native != nil {
+		return native
 	}
-	c.native = NewNativeFunction("", "", c.value)
+	callableMu.Lock()
+	defer callableMu.Unlock()
+	if c.native == nil {
+		c.native = NewNativeFunction("", "", c.value)
+	}
 	return c.native
 }
 
 // Value returns a reflect.Value of a callable, so it can be called from a
 // native code and passed to a native code.
 func (c *callable) Value(env *env) reflect.Value {
+	callableMu.RLock()
+	value := c.value
+	callableMu.RUnlock()
+	if value.IsValid() {
+		return value
+	}
+	callableMu.Lock()
+	defer callableMu.Unlock()
 	if c.value.IsValid() {
 		return c.value
 	}
